@@ -480,9 +480,11 @@ theorem ok_cacheWrite (o : Obj ℝ) (h : OK o) (p : List ℝ) (hl : p.length = o
   · simp only [Obj.θ, c1, c2, c3, c4]; exact h.probs
   · rw [c5, c4]; exact h.values
 
-/-- hypothesis on the vector given to `setFrequencies`: inside the property's quantifier, or
-arbitrary on an object with the strict constraint -/
-def FreqArg (o : Obj ℝ) (p : List ℝ) : Prop := (ValidProbs p ∧ p.length = o.dim) ∨ Strict o
+/-- hypothesis on the vector given to `setFrequencies`: inside the property's quantifier, or — on an
+object with the strict constraint — any vector of at least `dim` entries (a shorter one is read out
+of bounds by the C++: undefined behaviour, which the model only labels `Err.ub`) -/
+def FreqArg (o : Obj ℝ) (p : List ℝ) : Prop :=
+  (ValidProbs p ∧ p.length = o.dim) ∨ (Strict o ∧ o.dim ≤ p.length)
 
 /-- `Simplex::setFrequencies` on an object that satisfies the invariant: it still does afterwards,
 accepted or not; accepted, the cache is fresh; rejected, every member but the cache is as before -/
@@ -500,7 +502,7 @@ theorem setFrequenciesBase_pres (o : Obj ℝ) (h : OK o) (p : List ℝ) (hp : Fr
     obtain ⟨f1, f2, f3, f4, f5, f6⟩ := cacheWrite_fields o (p.take o.dim)
     have hreq : ReqOpen (reqOfList (paramsOf o.method (p.take o.dim))) 1
           (o.cacheWrite (p.take o.dim)).params.length ∨ Strict (o.cacheWrite (p.take o.dim)) := by
-      rcases hp with ⟨hv, hl⟩ | hs
+      rcases hp with ⟨hv, hl⟩ | ⟨hs, _⟩
       · left
         have : p.take o.dim = p := by rw [← hl]; exact List.take_length
         rw [this]
@@ -646,11 +648,20 @@ theorem setFrequenciesBase_rejected (o : Obj ℝ) (p : List ℝ) (hr : (o.setFre
     · rw [e] at hr; exact absurd rfl hr
     · rw [e]; exact eqButCache_cacheWrite o _
 
-/-- hypothesis on the vector given to `setFrequencies` of the object's class -/
+/-- hypothesis on the vector given to `setFrequencies` of the object's class; an `OrderedSimplex`
+is given values inside the property's quantifier, or a non-empty vector of another size (which the
+repaired code rejects) -/
 def SetFreqArg (o : Obj ℝ) (p : List ℝ) : Prop :=
   match o.vValues with
   | none => FreqArg o p
-  | some _ => ValidOrdered p ∧ p.length = o.dim
+  | some _ => (ValidOrdered p ∧ p.length = o.dim) ∨ (p.length ≠ 0 ∧ p.length ≠ o.dim)
+
+/-- the repaired `OrderedSimplex::setFrequencies` rejects every non-empty vector of another size
+than the dimension and leaves the object untouched -/
+theorem oSetFrequencies_wrong_size (o : Obj ℝ) (v : List ℝ) (h0 : v.length ≠ 0) (h1 : v.length ≠ o.dim) :
+    o.oSetFrequencies v = (o, some .sum) := by
+  unfold Obj.oSetFrequencies
+  simp [h0, h1]
 
 theorem setFrequencies_pres (o : Obj ℝ) (h : OK o) (p : List ℝ) (hp : SetFreqArg o p) :
     OK (o.setFrequencies p).1 ∧ SameShape o (o.setFrequencies p).1 ∧
@@ -667,7 +678,10 @@ theorem setFrequencies_pres (o : Obj ℝ) (h : OK o) (p : List ℝ) (hp : SetFre
   | some w =>
     rw [hv] at hp
     simp only
-    obtain ⟨hvo, hl⟩ := hp
+    rcases hp with ⟨hvo, hl⟩ | ⟨hne0, hned⟩
+    swap
+    · rw [oSetFrequencies_wrong_size o p hne0 hned]
+      exact ⟨h, SameShape.refl _, fun hn => (by cases hn), fun _ => EqButCache.refl _⟩
     have hvp := validOrdered_probs hvo
     have hlp : (orderedToProbs p 1).length = o.dim := by rw [orderedToProbs_length, hl]
     obtain ⟨r1, _, ⟨r2, r2p⟩, r3, r4, _, r6⟩ := setFrequenciesBase_roundtrip_gen o h.toShape _ hvp hlp (by
@@ -1650,8 +1664,9 @@ def HInv (h : Heap ℝ) : Prop := Sep h ∧ ∀ r o, h.get r = some o → OK o
 /-- the calls the history theorems quantify over.  Constructors are called with arguments inside
 the property's quantifier.  Setters: arguments inside the property's quantifier (positive
 probability vectors / strictly decreasing ordered values summing to one, parameters in the open
-interval), OR — on an object built with the strict constraint — ANY argument (`setFrequencies` of
-an `OrderedSimplex` excepted).  Copies: any.  The assignment through a base-class reference is
+interval), OR — on an object built with the strict constraint — ANY values (`setFrequencies`: a
+vector of at least `dim` entries on a plain `Simplex`; on an `OrderedSimplex` only values inside the
+quantifier, or a non-empty vector of another size, which is rejected).  Copies: any.  The assignment through a base-class reference is
 excluded (it leaves `vValues_` behind: `baseAssign_breaks_values`). -/
 def Adm (h : Heap ℝ) : HOp ℝ → Prop
   | .newVec _ false m _ p => ValidMethod m ∧ ValidProbs p
